@@ -90,6 +90,7 @@ class FnContract:
         self.loops = {}      # n -> (Block, iter_name)
         self.loopbodies = {} # n -> Block inserted at the start of the loop body
         self.loopends = {}   # n -> Block inserted before the closing brace of the loop body
+        self.loppres = {}    # n -> Block inserted before the loop statement
         self.anchors = []    # (where, regex, Block)
         self.tags = set()
         self.opaque_body = False  # never verify the body, even when the unit asks (needs reason)
@@ -159,6 +160,11 @@ def parse(path):
                     else: tags.append(x)
                 cur_block = Block('loop', ' '.join(tags), path, no)
                 cur_fn.loops[n] = (cur_block, it)
+            elif d == '@looppre':
+                # text inserted on its own line just before loop n
+                n = int(arg.split()[0])
+                cur_block = Block('looppre', '', path, no)
+                cur_fn.loppres[n] = cur_block
             elif d == '@loopend':
                 # text inserted just before the closing brace of the body of loop n
                 n = int(arg.split()[0])
